@@ -233,6 +233,72 @@ func (w *worker) runScan(cs J) J {
 			return fail("a full iteration on a stable collection did not end within the call budget")
 		}
 	}
+	// The collection is replaced by a derived copy of itself - the same elements, but a table that was built by another
+	// code path (a store command's result, COPY, DUMP / RESTORE) - and iterated completely once more: the guarantee
+	// is about the collection's content, not about how its table came to be.
+	var rebuild [][]string
+	_ = rebuild
+	switch kind {
+	case "set":
+		rebuild = [][][]string{
+			{{"SUNIONSTORE", "S", "S"}},
+			{{"SDIFFSTORE", "S", "S", "nokey"}},
+			{{"SINTERSTORE", "S", "S", "S"}},
+			{{"COPY", "S", "T", "REPLACE"}, {"RENAME", "T", "S"}},
+			{{"SUNIONSTORE", "T", "S", "nokey"}, {"RENAME", "T", "S"}},
+			{{"@dumprestore", "S"}},
+		}[id%6]
+	case "hash":
+		rebuild = [][][]string{
+			{{"COPY", "S", "T", "REPLACE"}, {"RENAME", "T", "S"}},
+			{{"@dumprestore", "S"}},
+		}[id%2]
+	default:
+		if ks, err := cn.DoS("KEYS", "*"); err == nil && ks.Kind == '*' {
+			for i, k := range ks.Elems {
+				if i >= 6 {
+					break
+				}
+				if id%2 == 0 {
+					rebuild = append(rebuild, []string{"COPY", string(k.Str), "T", "REPLACE"}, []string{"RENAME", "T", string(k.Str)})
+				} else {
+					rebuild = append(rebuild, []string{"@dumprestore", string(k.Str)})
+				}
+			}
+		}
+	}
+	how := []string{}
+	for _, rc := range rebuild {
+		how = append(how, strings.Join(rc, " "))
+		if rc[0] == "@dumprestore" {
+			d, err := cn.DoS("DUMP", rc[1])
+			if err != nil {
+				return fail(fmt.Sprintf("DUMP %s: no reply: %v", rc[1], err))
+			}
+			if d.Null || d.Kind == '-' {
+				continue // (the collection is empty: there is no key)
+			}
+			if r, err := cn.Do([]byte("RESTORE"), []byte(rc[1]), []byte("0"), d.Str, []byte("REPLACE")); err != nil {
+				return fail(fmt.Sprintf("RESTORE %s: no reply: %v", rc[1], err))
+			} else if r.Kind == '-' {
+				return fail(fmt.Sprintf("RESTORE %s REPLACE of its own DUMP replied %s", rc[1], r))
+			}
+			continue
+		}
+		if _, err := cn.DoS(rc...); err != nil { // (an error reply - no such key - means the collection is empty)
+			return fail(fmt.Sprintf("%v: no reply: %v", rc, err))
+		}
+	}
+	events = append(events, J{"op": "rebuild", "how": how})
+	for first := true; first || iterating; first = false {
+		if ok, msg := step(5); !ok {
+			return fail(msg)
+		}
+		extra++
+		if extra > 3*budget {
+			return fail("a full iteration on a rebuilt collection did not end within the call budget")
+		}
+	}
 	res["ev"] = events
 	res["calls"] = calls
 	return res
